@@ -91,7 +91,15 @@ def call_jobs(jobs):
                 # the NCP answers under the sequence number the request carried
                 try:
                     h(ezsplib.spec_header(h.VERSION, gw.sent[0][0], rcid) + payload)
-                    res = await asyncio.wait_for(t, 0.5)
+                    # the reply resolves the call's future at once; the call itself resumes within a few loop iterations (no real
+                    # time is needed - a call that is still waiting then has not been completed by its reply)
+                    for _ in range(10):
+                        if t.done():
+                            break
+                        await asyncio.sleep(0)
+                    if not t.done():
+                        raise asyncio.TimeoutError()
+                    res = t.result()
                     if len(fields) == 1 and fields[0][0] == "<single>":
                         vals = [ezsplib.canon(fields[0][2], res)]
                     else:
